@@ -264,7 +264,30 @@ func c11Scenario(seq []int, errMode string, restarts int, lg string) *Scenario {
 		K:          1,
 		TickBudget: 1 + restarts,
 	}
-	sc.Check = func(w *World) []Violation { return c11Check(w, wantOut, wantErr, lg, ids) }
+	if lg == "proc" || lg == "proc-flush" {
+		// "in that file once the process has ended": what the file holds at the moment the process is reported
+		// ended (somebody may read it right then) is remembered and compared with its final content
+		sc.OnState = func(w *World, name, status string) {
+			if name == "a" && (status == "Completed" || status == "Error") {
+				data, _ := os.ReadFile(filepath.Join(w.dir, "a.log"))
+				w.mu.Lock()
+				w.Extra["c11-at-end"] = string(data)
+				w.Extra["c11-at-end-pos"] = len(w.trace)
+				w.mu.Unlock()
+			}
+		}
+	}
+	sc.Check = func(w *World) []Violation {
+		vs := c11Check(w, wantOut, wantErr, lg, ids)
+		if snap, ok := w.Extra["c11-at-end"].(string); ok && (w.Outcome == "completed" || w.Outcome == "stuck") {
+			pos := w.Extra["c11-at-end-pos"].(int)
+			later := findEvent(w.pre(), pos, func(e Event) bool { return e.Kind == "launch" }) >= 0
+			if data, err := os.ReadFile(filepath.Join(w.dir, "a.log")); err == nil && !later && string(data) != snap {
+				vs = append(vs, viol("C11", "file-late:"+lg, "when the process was reported ended its log file held %d bytes, in the end it holds %d: the last lines reached the file after the end of the process", len(snap), len(data)))
+			}
+		}
+		return vs
+	}
 	return sc
 }
 
